@@ -62,7 +62,8 @@ Proof. destruct o; reflexivity. Qed.
 
 (** what [_next_line_token] hands over for the token text [tok] *)
 Definition vtok (b : option str) (tok : str) : str :=
-  if prefixb s_lt tok then match parse_cornered b tok with Ok r => r | Err _ => tok end else tok.
+  if ttl_base_applied_once then tok
+  else if prefixb s_lt tok then match parse_cornered b tok with Ok r => r | Err _ => tok end else tok.
 
 Definition closure_tok (t : atok) : bool :=
   match t with AComma | ASemi | ADot => true | _ => false end.
@@ -476,10 +477,11 @@ Proof.
   rewrite (at_idx_at_pos _ _ c rest H1). rewrite Hc. reflexivity.
 Qed.
 
+Lemma vtok_id b tok : vtok b tok = tok.
+Proof. reflexivity. Qed.
+
 Lemma vtok_not_lt b tok c t : tok = c :: t -> chr_eqb c ttl_iri_open = false -> vtok b tok = tok.
-Proof.
-  intros -> H. unfold vtok, s_lt. cbn [prefixb]. unfold chr_eqb in H. rewrite Ascii.eqb_sym, H. reflexivity.
-Qed.
+Proof. intros _ _. reflexivity. Qed.
 
 (** any other blank-terminated token *)
 Lemma nlt_other b line i bl c t rest :
@@ -518,18 +520,7 @@ Proof.
     change (len [ttl_blank]) with 1 in H2. exact H2.
 Qed.
 
-(** IRI token *)
-Lemma parse_cornered_ok b body : exists r, parse_cornered b (s_lt ++ body ++ s_gt) = Ok r.
-Proof.
-  unfold parse_cornered. destruct b as [base|]; [|eauto].
-  assert (E : exists c1, at_idx (s_lt ++ body ++ s_gt) 1 = Some c1).
-  { destruct body as [|x body]; [exists (chr ">"); reflexivity|]. exists x.
-    apply (at_idx_at_pos _ 1 x (body ++ s_gt)). exists s_lt. split; reflexivity. }
-  destruct E as (c1 & ->).
-  destruct (mem_str [c1] ttl_INI_BASE_URIS); [eauto|].
-  destruct (negb (prefixb ttl_abs_iri_start (slice_from (s_lt ++ body ++ s_gt) 1))); eauto.
-Qed.
-
+(** IRI token (the base is no longer applied here but by [_parse_elem]) *)
 Lemma nlt_iri b line i bl body rest :
   at_pos line i (bl ++ (s_lt ++ body ++ s_gt) ++ rest) -> blanks bl ->
   Forall (fun c => chr_eqb (chr ">") c = false) body ->
@@ -553,15 +544,12 @@ Proof.
   change (chr_eqb (chr ">") ttl_iri_open) with false. cbv iota.
   rewrite <- app_assoc. change (s_gt ++ rest) with (chr ">" :: rest).
   rewrite (find_nat_single_app (chr ">") body rest Hbody). cbn [option_map].
-  destruct (parse_cornered_ok b body) as (r & Hr).
   assert (Etok : slice line (i + len bl) (i + len bl + Z.of_nat (S (List.length body)) + 1) = ttl_iri_open :: body ++ s_gt).
   { replace (i + len bl + Z.of_nat (S (List.length body)) + 1) with (i + len bl + len (ttl_iri_open :: body ++ s_gt)).
     - apply (slice_at_pos line (i + len bl) (ttl_iri_open :: body ++ s_gt) rest).
       exact H1.
     - rewrite len_cons, len_app. change (len s_gt) with 1. unfold len. lia. }
-  rewrite Etok. unfold vtok.
-  change (prefixb s_lt (ttl_iri_open :: body ++ s_gt)) with true. cbv iota.
-  unfold s_lt in Hr. cbn [app] in Hr. rewrite Hr. cbn [bind].
+  rewrite Etok. change ttl_base_applied_once with true. cbv iota. rewrite vtok_id.
   do 3 f_equal. rewrite len_cons, len_app. change (len s_gt) with 1. unfold len. lia.
 Qed.
 
@@ -813,8 +801,7 @@ Proof.
   intros H Hb Hs Hr. destruct Hs as [c Hc|body Hbody|lex sfx Hlex Hsfx|c t Hc Hall].
   - destruct (nlt_closure b line i bl c rest H Hb Hc) as (E & P).
     exists (i + len bl + 1), rest. split; [|split; [left; exact P | left; reflexivity]].
-    rewrite E. do 3 f_equal. symmetry. apply (vtok_not_lt b [c] c [] eq_refl).
-    destruct (closure_chars c Hc) as [->|[->| ->]]; reflexivity.
+    rewrite E. reflexivity.
   - destruct (nlt_iri b line i bl body rest H Hb Hbody) as (E & P).
     eexists _, rest. split; [exact E|]. split; [left; exact P | left; reflexivity].
   - destruct (nlt_lit b line i bl lex sfx rest H Hb Hlex Hsfx Hr) as (E & P).
@@ -822,7 +809,7 @@ Proof.
     rewrite E. reflexivity.
   - destruct (nlt_other b line i bl c t rest H Hb Hc Hall Hr) as (E & P).
     eexists _, (after_skip rest). split; [|split; [exact P | right; reflexivity]].
-    rewrite E. do 3 f_equal. symmetry. apply (vtok_not_lt b _ c t eq_refl). apply Hc.
+    rewrite E. reflexivity.
 Qed.
 
 Lemma skipn_beyond (line : str) i : len line < i -> skipn (Z.to_nat i) line = [].
